@@ -39,6 +39,10 @@ ASSUMPTIONS = [
     'the five summarisation accounts come from the options and live under the Equity root (opts_equity; checked)',
     'generated amounts, costs and prices are integers so that weights are exact; Decimal arithmetic is C01',
     'original transactions carry flags * or ! (never S, T, C) and unique narrations t<i> identifying them in the output',
+    'translator tie (C13_source_prepare): PyMini semantics (Model/PyMini.v) and translator (harness/vf/py2mini.py, '
+    'src_ledger.py) are trusted; summarize.open_opt/close_opt/clear_opt are opaque: assumed to return (operation applied '
+    'to the entries, index) [summarize_ok]; isinstance(x, datetime.date) is Model/PrimsLedger.v isinstance; the table '
+    'attributes are open: date|None, close: date|True|None, clear: True|None (checked on the parser output on every run)',
 ]
 
 ROOTS = ['Assets', 'Equity', 'Expenses', 'Income', 'Liabilities']
@@ -1229,6 +1233,37 @@ def _pmap_small(fn, items):
     ctx = mp.get_context('fork')
     with ctx.Pool(min(core.NCPU, len(items))) as pool:
         return pool.map(fn, items, 1)
+
+
+# ----------------------------------------------------------------------------
+# translator tie (PyMini): BeanTable.prepare
+def _clause_value_census():
+    """the kinds of values the parser puts into From.open / close / clear (what BeanTable.update hands to prepare):
+    the encoding the theorem C13_source_prepare is stated over (date | None, date | True | None, True | None)"""
+    from beanquery import parser
+    seen = {'open': set(), 'close': set(), 'clear': set()}
+    for op in ('', 'OPEN ON 2020-01-01'):
+        for cl in ('', 'CLOSE ON 2021-01-01', 'CLOSE'):
+            for clr in ('', 'CLEAR'):
+                text = f'SELECT date FROM year = 2020 {op} {cl} {clr}'
+                node = parser.parse(text).from_clause
+                for k in seen:
+                    v = getattr(node, k)
+                    seen[k].add('None' if v is None else 'True' if v is True else
+                                'date' if type(v) is datetime.date else repr(type(v)))
+    allowed = {'open': {'None', 'date'}, 'close': {'None', 'date', 'True'}, 'clear': {'None', 'True'}}
+    bad = {k: sorted(v - allowed[k]) for k, v in seen.items() if v - allowed[k]}
+    if bad:
+        raise RuntimeError(f'From clause attribute values outside the encoding of C13_source_prepare: {bad}')
+    return {k: sorted(v) for k, v in seen.items()}
+
+
+def generate():
+    """translator tie: regenerate coq/Gen/SrcLedgerPrepare.v from the source of the imported BeanTable.prepare"""
+    from . import gen_src
+    out = gen_src.generate('ledger_prepare')
+    out['src_ledger_prepare_clause_values'] = _clause_value_census()
+    return out
 
 
 def replay(rec):
